@@ -31,6 +31,7 @@ RULE = (
 ASSUMPTIONS = ["cases in which the in-process optimize raises or times out are C03's business and are skipped (counted)", "both sides run with PYTHONHASHSEED=0 (hash-seed independence is C17's business)"]
 NAMES = list(TRAITS)
 FIXED = [
+    "{a(1..3)}.\np(X) :- a(X).\np(X,Y) :- a(X), a(Y), X<Y.\nq(X) :- p(X,_).\n:- q(3).",
     "{ shift(D,L) : pshift(D,L) } 1 :- day(D).\na(X) :- X = #sum {L,D : shift(D,L)}.\nb(X,Y) :- dom(X), dom(Y), X+Y < 42.\nc(X,Y) :- b(X,Y), dom(X), dom(Y).\n#show a/1.\n#show c/2.",
     "foo :- a, b, c.\nbar :- a, b, d.\nfoobar :- {e : a, b}.\n:- slot(J1,M,T); slot(J2,M,T); J1 != J2.\nmx(P,X) :- X = #max {V, ID : skill(P, ID, V)}, person(P).\n{skill(P,I,V)} :- cand(P,I,V).",
     "suminline(A,B) :- a(A); B = #sum { Y: person(A,Y) }.\nfoo(X) :- X = #sum { F,V: suminline(V,F); A: test(A,B) }.\np(A,D) :- q(A,B,C), r(A,D), t(E), not s(B,E).\nz :- X = #sum { 1,a : a }, Y=#sum{ 1,b: b }, X+Y=2.\n#show foo/1. #show p/2.",
@@ -100,6 +101,10 @@ def corpus_items(tier: str) -> list:
             if tier == "quick" and (ci + pi) % 3 != 0 and combo != ["default", "duplication"]:
                 continue
             items.append({"prog": pi, "enable": combo})
+    # predicate lists that name one predicate with two arities (program 0 defines p/1 and p/2)
+    for outp in ["p/1,p/2", "p/2, p/1", "q/1,p/2,p/1", "p/2", ""]:
+        items.append({"prog": 0, "enable": ["default"], "outp": outp})
+        items.append({"prog": 0, "enable": ["unused"], "outp": outp, "inp": "a/1"})
     return items
 
 
@@ -107,7 +112,7 @@ def corpus_items(tier: str) -> list:
 def corpus_strategy(draw: Any, item: dict, tier: str) -> Any:
     """one subset, names in a drawn order"""
     enable = list(draw(st.permutations(item["enable"])))
-    return Case(src=FIXED[item["prog"]], origin="exhaustive_subsets", instances=[], extra={"enable": enable, "inp": "absent", "outp": "absent", "log": None})
+    return Case(src=FIXED[item["prog"]], origin="exhaustive_subsets", instances=[], extra={"enable": enable, "inp": item.get("inp", "absent"), "outp": item.get("outp", "absent"), "log": None})
 
 
 @st.composite
@@ -146,6 +151,9 @@ def strategy(draw: Any, tier: str) -> Any:
             return None
         if m < 11 and preds:
             chosen = [p for p in preds if draw(st.booleans())] or preds[:1]
+            if draw(st.integers(0, 9)) < 3:  # the same name with another arity, as a declaration may list it
+                n0, a0 = chosen[0]
+                chosen = chosen + [(n0, a0 + 1)] if draw(st.booleans()) else [(n0, a0 + 1)] + chosen
             sep = draw(st.sampled_from([",", ", ", " , "]))
             return sep.join(f"{draw(st.sampled_from(['', ' ']))}{n}/{a}" for n, a in chosen)
         return draw(st.sampled_from(["p", "p/x", "p/1/2", "p/1,,q/2", "/1"]))
